@@ -226,6 +226,14 @@ def boundary_inputs():
         out.append('x' * n + '\n')
         out.append('x' * n + ': y\n')
         out.append('- ' + 'é' * n + ' z\n')
+    # words straddling the look-ahead sizes with each special character at the boundary (plain, in block and flow)
+    for n in (8, 16, 32, 64, 128, 256):
+        for d in (-1, 0, 1):
+            for c in "#:-,?!&*'\"%|>[]{}é":
+                w = 'x' * (n + d) + c + 'yz'
+                out.append('k: ' + w + '\n')
+                out.append('[' + w + ', b]\n')
+                out.append('w ' + w + ' # c\n')
     for n in range(251, 260):        # 255 flow levels
         out.append('[' * n + ']' * n)
         out.append('{a: ' * n + 'b' + '}' * n)
